@@ -36,7 +36,10 @@ def jobs(tier):
                 J.append(Job(b, "fork", P1, dict(p, ncb=3, yield_before_fork=1), env, workers=4))
                 J.append(Job(b, "fork", P1 if q else P2, dict(p, helpers=1), env, workers=8))          # per-thread helper
                 J.append(Job(b, "fork", P1 if q else P2, dict(p, helpers=2), env, workers=8))          # per-CPU helpers
-                J.append(Job(b, "fork", P1, dict(p, helpers=3, lfht=1), env, workers=16))
+                if not q or (b in ("fk_memb", "fk_bp") and env.get("VRT_MEMBARRIER") == 2):
+                    J.append(Job(b, "fork", P1, dict(p, helpers=3, lfht=1), env, workers=16))
+                else:
+                    J.append(Job(b, "fork", "0,0,0,0,0", dict(p, helpers=3, lfht=1), env, workers=4))
                 J.append(Job(b, "fork", P1, dict(p, lfht=2), env, workers=8))                          # fresh AUTO_RESIZE table after fork
                 J.append(Job(b, "fork", P1, dict(p, pre_lfht=1), env, workers=16))                     # table + worker from before the fork
                 J.append(Job(b, "fork", P1, dict(p, pre_lfht=1, ncb=0), env, workers=16))              # ... call_rcu never used before the fork
